@@ -396,7 +396,7 @@ pub fn gen_macro_run(seed: u64, fixtures: &[crate::procsim::CorpusDoc]) -> Macro
             2 => "0.0.1".to_string(),
             _ => vers.to_string(),
         };
-        if rng.chance(1, 3) && crate::procsim::is_fake_crate(name) {
+        if rng.chance(1, 2) && crate::procsim::is_fake_crate(name) {
             let key = rng.pick(&["renamed", "other-name", "alt_2"]).to_string();
             // the option block is a map: a key can appear once
             if o.crates.iter().any(|c| c.0 == key) {
@@ -428,7 +428,23 @@ pub fn gen_macro_run(seed: u64, fixtures: &[crate::procsim::CorpusDoc]) -> Macro
                 },
             ));
         }
-        if rng.chance(1, 3) {
+        if named.len() >= 2 && !o.patches.is_empty() && rng.chance(1, 2) {
+            // a second patch entry for ANOTHER type, with its own derives / rename:
+            // every entry applies to its own type only
+            let first = o.patches[0].0.clone();
+            let others: Vec<&String> = named.iter().filter(|n| **n != first).collect();
+            let n = (*rng.pick(&others)).clone();
+            o.patches.push((
+                n.clone(),
+                if rng.chance(1, 2) { Some(format!("{n}Second")) } else { None },
+                match rng.below(3) {
+                    0 => vec!["Eq".into(), "PartialEq".into()],
+                    1 => vec!["::std::hash::Hash".into()],
+                    _ => vec![],
+                },
+            ));
+        }
+        if rng.chance(1, 2) {
             let n = rng.pick(&named).clone();
             let impls = match rng.below(4) {
                 0 => vec![],
